@@ -177,3 +177,11 @@ ASSUMPTIONS = ["numpy: sort (non-decreasing rearrangement), max/min/argmax, conc
                "JokerSamples.__getitem__(int) returns that member row (decided in C17)"]
 NOT_DECIDED = ["invariance under permutation of the observations and under time reversal are properties of the *definition* "
                "(sorted phases / arcs on the circle); they hold for the code exactly because result == definition is discharged"]
+
+
+def EXTRA():
+    # the diagnostics only READ their arguments (asking twice gives the same answer)
+    from jvc import effects
+    return effects.check_no_inplace_on_borrowed(["thejoker.samples_analysis.MAP_sample", "thejoker.samples_analysis.max_phase_gap",
+                                                 "thejoker.samples_analysis.phase_coverage", "thejoker.samples_analysis.periods_spanned",
+                                                 "thejoker.data.RVData.phase"], PROPERTY)
